@@ -51,6 +51,11 @@ def _run_batch(modname, batch, timeout):
     env = dict(os.environ)
     env.setdefault("PYTHONHASHSEED", "0")
     env["PYTHONPATH"] = VERIF
+    # avoid arena map/unmap thrash of deep-recursion workloads (pure performance, 2x)
+    env.setdefault("PYTHONMALLOC", "malloc")
+    env.setdefault("MALLOC_TRIM_THRESHOLD_", "2000000000")
+    env.setdefault("MALLOC_MMAP_THRESHOLD_", "2000000000")
+    env.setdefault("MALLOC_TOP_PAD_", "268435456")
     cmd = [common.PY, os.path.join(VERIF, "check"), "--worker", modname]
     r = common.run_proc(cmd, cwd=VERIF, env=env, timeout=timeout, input=json.dumps(batch))
     results = []
